@@ -4,6 +4,7 @@ package main
 // cut at loop heads, collecting proof obligations.
 
 import (
+	"os"
 	"fmt"
 	"go/constant"
 	"go/token"
@@ -332,7 +333,7 @@ func (ex *Exec) oblige(kind string, site string, pos token.Pos, text string, con
 		pc := append([]*Term(nil), ex.st.pc...)
 		// universally quantified goals are proved for fresh constants, and the path facts are instantiated at them
 		goal, sks := ex.skolemizeGoal(cond)
-		pc = append(pc, ex.instantiateAt(pc, append(append([]*Term(nil), ex.st.hints...), sks...))...)
+		pc = append(pc, ex.instantiateAt(pc, append(append([]*Term(nil), ex.st.hints...), sks...), goal)...)
 		ob.Paths = append(ob.Paths, ObPath{PC: pc, Cond: goal, Trace: append([]string(nil), ex.st.trace...)})
 	} else if len(ob.Paths) == 0 {
 		// keep the obligation visible even when it folded to true on every path
@@ -1063,16 +1064,21 @@ func (ex *Exec) skolemizeGoal(g *Term) (*Term, []*Term) {
 // instantiateHints: E-matching on arithmetic index terms is unreliable in the solvers, so every single-variable
 // universal fact of the path is instantiated here at the index terms the program used (sound: instances of assumed facts).
 func (ex *Exec) instantiateHints(pc []*Term) []*Term {
-	return ex.instantiateAt(pc, ex.st.hints)
+	return ex.instantiateAt(pc, ex.st.hints, nil)
 }
 
 // instantiateAt instantiates the universal facts of the path (also those nested under conjunctions and consequents of
 // the instances produced) at the given ground terms.
-func (ex *Exec) instantiateAt(pc []*Term, hints []*Term) []*Term {
-	if len(hints) == 0 {
+func (ex *Exec) instantiateAt(pc []*Term, hints []*Term, goal *Term) []*Term {
+	if len(hints) == 0 && goal == nil {
 		return nil
 	}
 	ts := ex.ts
+	var sel map[*Term][]*Term
+	if goal != nil && os.Getenv("GOVC_NOMATCH") == "" {
+		// ground index terms of the goal only: those are the ones the proof has to talk about
+		sel = groundSelects([]*Term{goal}, 200)
+	}
 	var out []*Term
 	seen := map[*Term]bool{}
 	budget := 3000
@@ -1118,10 +1124,16 @@ func (ex *Exec) instantiateAt(pc []*Term, hints []*Term) []*Term {
 				seen[t] = true
 			}
 			b := t.Binds[0]
-			for _, h := range hints {
-				if h.S != b.S {
+			cands := hints
+			if sel != nil && depth <= 1 {
+				cands = append(append([]*Term(nil), hints...), ex.indexMatches(t.Args[0], b, sel)...)
+			}
+			done := map[*Term]bool{}
+			for _, h := range cands {
+				if h.S != b.S || done[h] {
 					continue
 				}
+				done[h] = true
 				inst := ts.Subst(t.Args[0], map[*Term]*Term{b: h})
 				emit(inst, guard)
 				visit(inst, guard, depth+1)
